@@ -34,6 +34,9 @@ def roundtrip(source, stats=None, what="profile"):
     if isinstance(p, Raised):
         raise Violation("parse:rejected", f"{what} rejected: {str(p.exc)[:300]!r}; source={source[:400]!r}")
     text = lib(p.as_text, what="as_text")
+    text_again = lib(p.as_text, what="as_text (second call)")
+    if text_again != text:
+        raise Violation("text:not_repeatable", f"{what}: as_text() returns different text on the second call")
     out_tokens = PL.tokenize(text)
     if out_tokens != src_tokens:
         i = next((k for k, (a, b) in enumerate(zip(src_tokens, out_tokens)) if a != b), min(len(src_tokens), len(out_tokens)))
